@@ -215,6 +215,9 @@ func (e encrypter) encrypt(data []byte) ([]byte, error) {
 
 func (e encrypter) decrypt(data []byte) ([]byte, error) {
 	nonceSize := e.gcm.NonceSize()
+	if len(data) < nonceSize {
+		return nil, errors.New("malformed ciphertext")
+	}
 	nonce, ciphertext := data[:nonceSize], data[nonceSize:]
 	plaintext, err := e.gcm.Open(nil, nonce, ciphertext, nil)
 	if err != nil {
